@@ -72,6 +72,11 @@ def regions(cms, kind):
         for si in node[4]:
             octs = [x for x in si[4] if x[0] == 4]
             r.setdefault("signature", []).append((octs[-1][2], octs[-1][3]))
+            # what ties this SignerInfo to its certificate: issuerAndSerialNumber (every SignerInfo has to verify, so one that no longer names a certificate
+            # of the message cannot be passed over -- the same reading under which a damaged signature of the second signer must fail)
+            ias = si[4][1]
+            r.setdefault("sidissuer", []).append((ias[4][0][2], ias[4][0][3]))
+            r.setdefault("sidserial", []).append((ias[4][1][2], ias[4][1][3]))
     if kind == "sign":
         ci = f[2][4]
         r["ctype"] = [(ci[0][2], ci[0][3])]          # the inner contentType: the signed digest covers the content-info header
